@@ -76,6 +76,8 @@ def inForceFail (σ : St) (what got : String) : List Msg :=
       s!"the implementation reported {want} as applied; {what}: {got}"]
 
 def step (σ : St) (op obs : List String) : St × List Msg :=
+  -- an operation on an application that was never started (a reduced replay) observes nothing
+  if obs = ["noapp"] then (σ, [.tag "noapp"]) else
   match op, obs with
   | ["steps"], [toks] =>
     let observed := parseSteps toks
